@@ -538,8 +538,10 @@ func (e *Env) evalCall(n *ast.CallExpr) Val {
 			return Bool{"(forall ((" + q + " Int)) (=> " + rng + " " + body + "))"}
 		}
 		return Bool{"(exists ((" + q + " Int)) (and " + rng + " " + body + "))"}
-	case "atloop":
+	case "atloop", "heapatloop":
 		// atloop(n, e): value of e at the head of the current iteration of loop n
+		// heapatloop(n, e): e evaluated with the current locals (e.g. the range variables of this
+		// iteration) in the heap as it was at the head of the current iteration of loop n
 		lit, ok := n.Args[0].(*ast.BasicLit)
 		if !ok || e.fr == nil {
 			evalFail("atloop(n, e) needs a literal loop ordinal")
@@ -549,7 +551,13 @@ func (e *Env) evalCall(n *ast.CallExpr) Val {
 			if key.frame == e.fr.id && ol.snap != nil {
 				if lp := e.fr.loops.byHead[key.head]; lp != nil && lp.ordinal == ord {
 					ne := *e
-					ne.st = ol.snap
+					if fname == "heapatloop" {
+						hs := ol.snap.clone()
+						hs.cellv = e.st.cellv
+						ne.st = hs
+					} else {
+						ne.st = ol.snap
+					}
 					return ne.eval(n.Args[1])
 				}
 			}
